@@ -84,6 +84,11 @@ func resolvePath(p string) (cid.Cid, error) {
 	if len(segs) < 2 || segs[1] == "" {
 		return cid.Undef, errors.New("model: bad path " + p)
 	}
+	for _, sg := range segs[2:] {
+		if sg == "unresolvable" { // a well-formed path whose link does not exist
+			return cid.Undef, errors.New("model: no link named unresolvable under " + segs[1])
+		}
+	}
 	if segs[0] == "ipfs" {
 		c, err := cid.Decode(segs[1])
 		if err != nil {
